@@ -3,6 +3,7 @@ from __future__ import annotations
 
 import hashlib
 import json
+import os
 import signal
 import sys
 from collections import Counter
@@ -66,6 +67,11 @@ _MAX_STEPS = 30
 _CASE_TIMEOUT_S = 120  # safety net only (a healthy case takes milliseconds)
 
 
+# experiments only (see notes/c11-report.md): C11_STRICT=alt_binary,alt_readback,alt_config,group_diff also demands the identities
+# that ASSUMPTIONS exclude. Never set by check.py or the manifest.
+_STRICT = set(filter(None, os.environ.get("C11_STRICT", "").split(",")))
+
+
 class _Hang(BaseException):
     """Raised by the watchdog / line bound inside the code under test."""
 
@@ -78,7 +84,7 @@ _BOGUS = ["Invalid", "", "0xZZ", "12 34", "0b102", "--1"]
 
 
 def _vspec():
-    return st.fixed_dictionaries({"k": st.sampled_from(_VALUE_KINDS), "x": st.integers(0, (1 << 512) - 1)})
+    return st.fixed_dictionaries({"k": st.sampled_from(_VALUE_KINDS), "x": st.integers(0, (1 << 64) - 1)})
 
 
 @st.composite
@@ -169,7 +175,7 @@ def _layout(draw):
 
 
 def _op():
-    big = st.integers(0, (1 << 64) - 1)
+    big = st.integers(0, (1 << 16) - 1)
     set_reg = st.fixed_dictionaries({"op": st.just("set_reg"), "t": big, "v": _vspec(), "form": st.sampled_from(_FORMS), "raw": st.booleans()})
     set_bf = st.fixed_dictionaries({
         "op": st.just("set_bf"), "t": big, "f": big, "v": _vspec(), "form": st.sampled_from(_FORMS), "raw": st.booleans(),
@@ -183,15 +189,18 @@ def _op():
     entry = st.fixed_dictionaries({
         "t": big, "by": st.sampled_from(["name", "name", "uid"]), "style": st.sampled_from(["value", "value_dict", "fields", "fields", "fields_obsolete"]),
         "v": _vspec(), "form": st.sampled_from(["int", "hex", "HEX", "dec", "bin"]),
-        "fields": st.lists(st.fixed_dictionaries({"f": big, "v": _vspec(), "form": st.sampled_from(["int", "hex", "dec", "enum", "enum", "RAW"]), "by": st.sampled_from(["name", "name", "uid"])}), min_size=1, max_size=4),
+        "fields": st.lists(st.fixed_dictionaries({"f": big, "v": _vspec(), "form": st.sampled_from(["int", "hex", "dec", "enum", "enum", "RAW"]), "by": st.sampled_from(["name", "name", "uid"])}), min_size=1, max_size=3),
     })
-    load = st.fixed_dictionaries({"op": st.just("load"), "entries": st.lists(entry, min_size=1, max_size=4)})
+    load = st.fixed_dictionaries({"op": st.just("load"), "entries": st.lists(entry, min_size=1, max_size=3)})
     query = st.fixed_dictionaries({"op": st.just("query"), "which": st.lists(st.sampled_from(_QUERIES), min_size=1, max_size=4), "x": big})
     return st.one_of(set_reg, set_reg, set_bf, set_bf, set_bf, reset, exp, parse, cfg, load, query, query)
 
 
 def _case():
-    return st.fixed_dictionaries({"layout": _layout(), "ops": st.lists(_op(), min_size=1, max_size=_MAX_STEPS)})
+    # the longer of two draws: Hypothesis favours the lower bound of a range, histories should mostly be long (still shrinks to 1)
+    length = st.tuples(st.integers(1, _MAX_STEPS), st.integers(1, _MAX_STEPS)).map(max)
+    ops = length.flatmap(lambda n: st.lists(_op(), min_size=n, max_size=n))
+    return st.fixed_dictionaries({"layout": _layout(), "ops": ops})
 
 
 # ====================================================================== value helpers
@@ -422,8 +431,10 @@ def _observe(ob: _Obj, m: MFile, full: bool = True) -> list:
             out.append(("reg", i, None, "read_exc:%s" % type(exc).__name__, str(exc)[:120], ""))
     for j, (h, g) in enumerate(zip(ob.groups, m.groups)):
         try:
-            raw = h.get_value(raw=True)
             subs = [s.get_value(raw=True) for s in h.sub_regs]
+            if any(not isinstance(sv, int) or sv < 0 or sv >= 1 << g.sw for sv in subs):
+                continue  # a member holds an out-of-range value (reported above); reading the group may not terminate
+            raw = h.get_value(raw=True)
             comp = 0
             for idx, sv in enumerate(subs):
                 comp |= sv << (g.width - (idx + 1) * g.sw if g.rev_order else idx * g.sw)
@@ -627,7 +638,7 @@ class _Run:
         ent_r, ent_g = self._entitled(target)
         good = self._after_write(step, what, cls, model_ok, exc, ent_r, ent_g, "register_write", snap)
         if good and not self.dead:
-            if grp and not (well_defined and target.view_unambiguous()):
+            if grp and not (well_defined and target.view_unambiguous()) and "alt_readback" not in _STRICT:
                 self.o.label("alt_width_readback_not_demanded")
             else:
                 got = h.get_value(raw=raw)
@@ -736,7 +747,7 @@ class _Run:
     def _binary_demanded(self) -> bool:
         ok = True
         for g in self.m.groups:
-            if g.alt and (self.m.endian != "little" or not g.view_unambiguous()):
+            if g.alt and self.m.endian != "little" and "alt_binary" not in _STRICT:
                 ok = False
         return ok
 
@@ -790,7 +801,7 @@ class _Run:
             exp = self._expected_after_binary(exp)
             with o.spsdk("export_parse", "parse_same"):
                 self.ob.regs.parse(data)
-            if stale_alt and any(g.alt and g.taken_bytes() * 8 != g.width for g in self.m.groups):
+            if stale_alt and any(g.alt and g.taken_bytes() * 8 != g.width for g in self.m.groups) and "alt_binary" not in _STRICT:
                 # members beyond the alternative width keep what they held: not judged, bring the object back
                 o.label("alt_width_binary_roundtrip_not_demanded")
                 self.resync()
@@ -910,10 +921,10 @@ class _Run:
             return
         self._check_config_content(step, cfg, diff)
         for g in self.m.groups:
-            if g.alt and not g.view_unambiguous():
+            if g.alt and not g.view_unambiguous() and "alt_config" not in _STRICT:
                 o.label("alt_width_config_roundtrip_not_demanded")
                 return
-            if diff and any(s.init for s in g.subs):
+            if diff and any(s.init for s in g.subs) and "group_diff" not in _STRICT:
                 # a group has no reset value of its own; which member values a diff omits is not defined by the property
                 o.label("group_diff_with_member_resets_not_demanded")
                 return
